@@ -50,15 +50,32 @@ func vfC08Oracle(in *vfGWInst, evFull string, pre, post *vfSnap) {
 	params := g.n.gs.params
 	// 1. nothing on the wire may be an early GRAFT; every PRUNE to a v1.1+ peer states the backoff
 	for _, name := range g.order {
+		// (PRUNEs sent earlier in this very step count too: a peer pruned and grafted again by one and the same
+		// heartbeat never shows as a change of the mesh between two steps)
+		type sentPrune struct{ at, length time.Duration }
+		prunedNow := map[string]sentPrune{}
 		for _, r := range g.wire[name] {
 			if r.rpc == nil {
 				continue
+			}
+			for _, pr := range r.rpc.GetControl().GetPrune() {
+				length := time.Duration(pr.GetBackoff()) * time.Second
+				if length == 0 {
+					length = params.PruneBackoff
+					if f[0] == "leave" {
+						length = params.UnsubscribeBackoff
+					}
+				}
+				prunedNow[pr.GetTopicID()] = sentPrune{r.at, length}
 			}
 			for _, gr := range r.rpc.GetControl().GetGraft() {
 				t := gr.GetTopicID()
 				in.count("grafts_on_wire")
 				if f[0] == "ungate" && f[1] == name {
 					continue // released from a blocked write: decided before the gate, not judged
+				}
+				if sp, ok := prunedNow[t]; ok && r.at+time.Millisecond < sp.at+sp.length {
+					in.bad("c08:early-graft", "GRAFT for %s sent to %s at %v, in the same step as (and not before) a PRUNE for it sent at %v that starts a backoff of %v", t, name, r.at, sp.at, sp.length)
 				}
 				if d := m.deadline[name+"|"+t]; d > r.at+time.Millisecond {
 					in.bad("c08:early-graft", "GRAFT for %s sent to %s at %v, but the backoff (length %v, set at %v) only expires at %v", t, name, r.at, m.boLen[name+"|"+t], m.setAt[name+"|"+t], d)
@@ -213,6 +230,26 @@ func vfC08Scenarios(thorough bool) []*vfGWScenario {
 	// leaving, publishing into the topic from outside (fanout) and joining again inside the backoff: the promotion of
 	// the fanout set to the mesh, and its top-up, have to respect the unsubscribe and prune backoffs
 	mk("fanout-return", "d2tight", 0, append(append([]string{}, prefix...), "join:t", "hb"), []string{"leave:t", "lpub:t:p1", "join:t", "hb", "prune:a:t", "prune:b:t:60", "adv:1100", "adv:4100", "adv:14000"})
+	// a heartbeat that cuts an over-subscribed mesh and grafts opportunistically in the same breath, from a state
+	// without any backoff entry for the topic: the peers it has just pruned are under backoff from that moment
+	{
+		p6 := []vfPeerCfg{{Name: "a", Proto: "v11", IP: "10.0.0.1"}, {Name: "b", Proto: "v11", IP: "10.0.0.2", Outbound: true}, {Name: "c", Proto: "v12", IP: "10.0.0.3"},
+			{Name: "d", Proto: "v11", IP: "10.0.0.4", Outbound: true}, {Name: "e", Proto: "v11", IP: "10.0.0.5", Outbound: true}, {Name: "f", Proto: "v12", IP: "10.0.0.6", Outbound: true}}
+		var pre []string
+		for _, p := range p6 {
+			pre = append(pre, "conn:"+p.Name)
+		}
+		for _, p := range p6 {
+			pre = append(pre, "sub:"+p.Name+":t")
+		}
+		pre = append(pre, "join:t")
+		for _, p := range p6 {
+			pre = append(pre, "graft:"+p.Name+":t")
+		}
+		pre = append(pre, "score:a:0.8", "score:b:0.6", "score:c:0.4", "score:d:0.2", "score:e:0.1")
+		out = append(out, &vfGWScenario{Name: "over-oppgraft", Cfg: vfGWCfg{Router: "gossip", Peers: p6, Topics: []string{"t"}, Params: "d4og", Scoring: true, Prefix: pre},
+			Alphabet: []string{"hb", "score:f:0.7", "score:a:-1", "prune:b:t", "graft:b:t", "adv:5000"}, Depth: d, DevKinds: []string{"peers"}, DevEvents: []string{"hb"}, DevMax: 4})
+	}
 	return out
 }
 
